@@ -225,7 +225,7 @@ class RefTree:
 class EvalInfo:
     """side information about one evaluation (what the verdict may rely on)."""
     __slots__ = ('order_dep', 'doc_upward', 'fp_from_attr_ns', 'reverse', 'positional', 'nonelem_ctx', 'max_inter',
-                 'preceding_from_doc_child')
+                 'preceding_from_doc_child', 'ns_positional')
 
     def __init__(self):
         self.order_dep = False        # a positional predicate saw >= 2 attributes / namespace nodes of one element
@@ -236,6 +236,7 @@ class EvalInfo:
         self.nonelem_ctx = False      # some step was evaluated from a non-element, non-document context node
         self.max_inter = 0
         self.preceding_from_doc_child = False   # preceding:: evaluated from a child of the document node
+        self.ns_positional = False    # a positional predicate numbered a list of >= 2 nodes containing a namespace node
 
 
 _PRINCIPAL = {'attribute': 'attribute', 'namespace': 'namespace'}
@@ -323,6 +324,8 @@ class Evaluator:
         for p in preds:
             if self.is_positional(p):
                 info.positional = True
+                if len(cands) > 1 and any(c.kind == 'namespace' for c in cands):
+                    info.ns_positional = True
                 seen = set()
                 for c in cands:
                     if c.kind in ('attribute', 'namespace'):
